@@ -294,3 +294,14 @@ func mustStruct(b []byte) *structpb.Struct {
 var contextBG = context.Background()
 
 func ecdhKey(priv []byte) (*ecdh.PrivateKey, error) { return ecdh.X25519().NewPrivateKey(priv) }
+
+// identFromCreds rebuilds a harness identity from library node credentials (the harness owns every private key).
+func identFromCreds(c *types.NodeCredentials) *Ident {
+	k, err := x509.ParsePKCS8PrivateKey(c.CertificatePrivateKeyPkcs8)
+	if err != nil {
+		return nil
+	}
+	priv := k.(ed25519.PrivateKey)
+	ep, _ := ecdh.X25519().NewPrivateKey(c.EncryptionPrivateKeyBytes)
+	return &Ident{Name: "node", Priv: priv, Pub: priv.Public().(ed25519.PublicKey), Pkix: c.CertificatePublicKeyPkix, KeyId: keyID(c.CertificatePublicKeyPkix), EncPriv: ep, EncPub: ep.PublicKey().Bytes(), Nonce: c.RegistrationNonce}
+}
